@@ -80,6 +80,11 @@ def gen_cases(rng, stats, count):
             ops += [histgen.kubelet("crashloop", stride), histgen.rec_all_ers(rng),
                     histgen.edit("ExtendedDaemonSet", NS, EDS, "image:img:%d" % rng.choice([6, 7])), histgen.rec_eds()]
             wprop.bump(stats, "old pods crash-looping when the template changes", "every %d" % stride)
+        if rng.random() < 0.25:
+            # a manifest re-applied with a name on the pod template, together with a new image
+            ops += [histgen.edit("ExtendedDaemonSet", NS, EDS, "tmplname:agent"),
+                    histgen.edit("ExtendedDaemonSet", NS, EDS, "image:img:%d" % rng.choice([8, 9])), histgen.rec_eds()]
+            wprop.bump(stats, "template re-applied with a metadata.name", "yes")
         add_tail(rng, c, n + 2)
         out.append(c)
     return out
